@@ -8,7 +8,7 @@
 (*   - a Fails... predicate: the documented failure cases (panic / None).  *)
 (* BigUint values are BigZ records with s \in {0, 1}.                      *)
 (***************************************************************************)
-EXTENDS BigZ
+EXTENDS Text
 
 IsU(x) == x.s >= 0
 
@@ -39,9 +39,72 @@ IsDivPair(conv, a, b, q, r) ==
 IsMultipleOf(a, b, hintq) ==
     IF b.s = 0 THEN a.s = 0 ELSE ZEq(a, ZMul(hintq, b))
 
+(* bits: amounts and indices arrive as magnitudes (byte sequences) because they may exceed TLC integers *)
+SmallMag(m)  == Len(m) <= 3                      \* < 2^24: usable as a TLC integer
+ShlR(x, m)   == IF x.s = 0 THEN ZZero ELSE ZShl(x, Val(m))            \* only generated with small m unless x = 0
+ShrR(x, m)   == IF Cmp(m, OfInt(BitLen(x.d))) >= 0
+                THEN (IF x.s < 0 THEN ZInt(-1) ELSE ZZero)             \* everything shifted out: floor gives -1 / 0
+                ELSE ZShr(x, Val(m))
+BitR(x, m)   == IF SmallMag(m) THEN ZBit(x, Val(m)) = 1 ELSE x.s < 0   \* far beyond the top: the sign extension
+SetBitR(x, m, v) == IF SmallMag(m) THEN ZSetBit(x, Val(m), v) ELSE x   \* far indices only generated as no-ops
+
+(* radix ranges *)
+FailsTextRadix(radix)  == radix < 2 \/ radix > 36
+FailsDigitRadix(radix) == radix < 2 \/ radix > 256
+\* from_radix_*: None exactly when a digit is not below the radix; empty means zero
+FromRadixOK(dsMsb, radix) == \A k \in 1..Len(dsMsb) : dsMsb[k] < radix
+
 (* construction from digit material *)
-OfBytesLE(sgn, bytes) == Z(sgn, Norm(bytes))
-OfBytesBE(sgn, bytes) == Z(sgn, Norm(Reverse(bytes)))
+OfBytesLE(sgn, bytes) == IF sgn = 0 THEN ZZero ELSE Z(sgn, Norm(bytes))
+OfBytesBE(sgn, bytes) == OfBytesLE(sgn, Reverse(bytes))
 \* any (sign, magnitude) request: NoSign gives zero, zero magnitude gives NoSign
 OfSignMag(sgn, mag)   == IF sgn = 0 THEN ZZero ELSE Z(sgn, mag.d)
+
+(* export: zero is one zero byte; otherwise the base-256 digits *)
+BytesLE(v) == IF v.d = <<>> THEN <<0>> ELSE v.d
+\* the base-2^(8W) digits of v as W-byte little-endian words: none for zero, no high zero word
+WordCount(v, W) == (Len(v.d) + W - 1) \div W
+WordList(v, W)  == [i \in 1..WordCount(v, W) |-> [j \in 1..W |-> Dig(v.d, (i - 1) * W + j)]]
+Flatten(ws)     == FoldLeft(LAMBDA acc, w: acc \o w, <<>>, ws)
+IsWordsOf(bytes, v, W) == bytes = Flatten(WordList(v, W))
+
+(* two's complement byte strings (little endian) *)
+TwosDecode(b) ==
+    IF b = <<>> THEN ZZero
+    ELSE IF b[Len(b)] >= 128 THEN Z(-1, Sub(PowerOfTwo(8 * Len(b)), Norm(b)))
+    ELSE ZNat(Norm(b))
+\* a sign-extension byte that could be dropped without changing the value
+RedundantTop(b) ==
+    /\ Len(b) >= 2
+    /\ \/ b[Len(b)] = 0 /\ b[Len(b) - 1] < 128
+       \/ b[Len(b)] = 255 /\ b[Len(b) - 1] >= 128
+\* THE shortest two's complement encoding of v (unique)
+IsSignedBytesLE(b, v) == Len(b) >= 1 /\ ~RedundantTop(b) /\ ZEq(TwosDecode(b), v)
+
+(* digit iterators are exact-size double-ended iterators over WordList: a deque.
+   calls: records [c, k, some, w, n]; returns TRUE iff every logged answer is the deque's answer *)
+IterStep(st, c) ==
+    LET dq == st.dq  n == Len(dq) IN
+    CASE c.c = "next" ->
+           IF n = 0 THEN [dq |-> dq, ok |-> st.ok /\ ~c.some]
+           ELSE [dq |-> Tail(dq), ok |-> st.ok /\ c.some /\ c.w = dq[1]]
+      [] c.c = "next_back" ->
+           IF n = 0 THEN [dq |-> dq, ok |-> st.ok /\ ~c.some]
+           ELSE [dq |-> SubSeq(dq, 1, n - 1), ok |-> st.ok /\ c.some /\ c.w = dq[n]]
+      [] c.c = "len" -> [dq |-> dq, ok |-> st.ok /\ c.n = n]
+      [] c.c = "size_hint" -> [dq |-> dq, ok |-> st.ok /\ c.n = n /\ c.some]      \* (n, Some(n))
+      [] c.c = "count" -> [dq |-> <<>>, ok |-> st.ok /\ c.n = n]
+      [] c.c = "nth" ->
+           IF c.k < n THEN [dq |-> SubSeq(dq, c.k + 2, n), ok |-> st.ok /\ c.some /\ c.w = dq[c.k + 1]]
+           ELSE [dq |-> <<>>, ok |-> st.ok /\ ~c.some]
+      [] c.c = "nth_back" ->
+           IF c.k < n THEN [dq |-> SubSeq(dq, 1, n - c.k - 1), ok |-> st.ok /\ c.some /\ c.w = dq[n - c.k]]
+           ELSE [dq |-> <<>>, ok |-> st.ok /\ ~c.some]
+      [] c.c = "last" ->
+           IF n = 0 THEN [dq |-> dq, ok |-> st.ok /\ ~c.some]
+           ELSE [dq |-> <<>>, ok |-> st.ok /\ c.some /\ c.w = dq[n]]
+      [] c.c = "collect" -> [dq |-> <<>>, ok |-> st.ok /\ c.w = Flatten(dq)]
+      [] c.c = "collect_rev" -> [dq |-> <<>>, ok |-> st.ok /\ c.w = Flatten(Reverse(dq))]
+      [] OTHER -> [dq |-> dq, ok |-> FALSE]
+IterOK(v, W, calls) == FoldLeft(IterStep, [dq |-> WordList(v, W), ok |-> TRUE], calls).ok
 =============================================================================
